@@ -191,7 +191,7 @@ def _run(ctx, quick, broken, exes, driver, tmp, gen_info, only_replay):
                 for s in beh:
                     jobs.append((g, Job(p, v, s, seed=rng.next() % 10**9, stack_kb=stack * 3)))
     # ---- generated programs
-    n_small, n_large = (40, 30) if quick else (1200, 800)
+    n_small, n_large = (40, 30) if quick else (600, 400)
     light = bool(os.environ.get("C01_LIGHT"))   # development aid (mutation runs): catalogue + a few programs only
     if light:
         n_small, n_large = 12, 8
@@ -227,7 +227,10 @@ def _run(ctx, quick, broken, exes, driver, tmp, gen_info, only_replay):
         suites = []
     for p in suites:
         g = "suite:" + os.path.basename(p)
-        groups[g] = dict(prog=p, kind="suite", observes=False, need=[], opt=[])
+        # a test script that uses weak containers observes the collector: memory safety and graph level only
+        with open(p, errors="replace") as f:
+            weak = "weak" in f.read()
+        groups[g] = dict(prog=p, kind="suite", observes=weak, need=[], opt=[])
         big = os.path.basename(p) in ("suite-boot.janet", "suite-corelib.janet", "suite-ev.janet", "suite-peg.janet", "suite-marsh.janet", "suite-os.janet", "suite-bundle.janet")
         plan = [("asan", "never"), ("asan", "p1024" if big else "p64"), ("asan_debugstack", "p1024" if big else "p64")]
         for v, s in plan:
